@@ -762,18 +762,18 @@ IO = 'tfhe_io.cpp'
 
 
 def c18_groups(tier, tag='C18'):
-    gs = [Group(tag + '.read_lweSample+lweKey', 'c18_readers.c', 'h_read_lwe', extract=[(IO, 'read_lweSample'), (IO, 'read_lweKey_content')], defines={'H_LWE': None}, timeout=1200, replay='io')]
+    gs = [Group(tag + '.read_lweSample+lweKey', 'c18_readers.c', 'h_read_lwe', extract=[(IO, 'read_lweSample'), (IO, 'read_lweKey_content')], defines={'H_LWE': None}, timeout=1200, replay='io18')]
     for (K, L) in ([(1, 2), (2, 2)] if tier == 'quick' else [(1, 1), (1, 2), (1, 3), (2, 2), (2, 3), (3, 2)]):
         d = {'VERIF_K': K, 'VERIF_L': L}
         inst = {'k': K, 'l': L}
         gs.append(Group('%s.read_tLweSample+keys.k=%d.l=%d' % (tag, K, L), 'c18_readers.c', 'h_read_tlwe',
-                        extract=[(IO, 'read_tLweSample'), (IO, 'read_tLweKey_content'), (IO, 'read_tGswKey_content')], defines=dict(d, H_TLWE=None), unwind=K + 3, timeout=1200, instance=inst, replay='io'))
+                        extract=[(IO, 'read_tLweSample'), (IO, 'read_tLweKey_content'), (IO, 'read_tGswKey_content')], defines=dict(d, H_TLWE=None), unwind=K + 3, timeout=1200, instance=inst, replay='io18'))
         gs.append(Group('%s.read_tGswSample.k=%d.l=%d' % (tag, K, L), 'c18_readers.c', 'h_read_tgsw', extract=[(IO, 'read_tLweSample'), (IO, 'read_tGswSample')],
-                        defines=dict(d, H_TGSW=None), unwind=(K + 1) * L + 3, timeout=1200, instance=inst, replay='io'))
+                        defines=dict(d, H_TGSW=None), unwind=(K + 1) * L + 3, timeout=1200, instance=inst, replay='io18'))
         gs.append(Group('%s.read_LweBootstrappingKey_content.k=%d.l=%d' % (tag, K, L), 'c18_readers.c', 'h_read_bk', extract=[(IO, 'read_LweBootstrappingKey_content')],
-                        defines=dict(d, H_BK=None), unwind=(K + 1) * L + 3, timeout=1200, instance=dict(inst, n=2), replay='io'))
+                        defines=dict(d, H_BK=None), unwind=(K + 1) * L + 3, timeout=1200, instance=dict(inst, n=2), replay='io18'))
     gs.append(Group(tag + '.read_lweKeySwitchKey_content', 'c18_readers.c', 'h_read_ks', extract=[(IO, 'read_lweKeySwitchKey_content')], defines={'H_KS': None}, unwind=10,
-                    timeout=1200, instance={'n': 2, 't': 2, 'basebit': 1}, replay='io'))
+                    timeout=1200, instance={'n': 2, 't': 2, 'basebit': 1}, replay='io18'))
     return gs
 
 
